@@ -42,7 +42,7 @@ Section Equiv.
 
   (* the model's crowd_step against what the inverted reads say: crowd[0], crowd[-1], the range test *)
   Ltac crowd_head :=
-    unfold step_sw, crowd_step, centry in *; cbn [fst snd];
+    try unfold step_sw; unfold crowd_step, centry in *; cbn [fst snd];
     match goal with
     | Hsort : ?c = sort_st _ _ _ |- _ =>
         rewrite <- Hsort; clear Hsort;
@@ -64,6 +64,14 @@ Section Equiv.
     unfold step_sw. rewrite fold_left_swap. cbn zeta. cbn [fst snd].
     rewrite map_enumerate_swap. reflexivity.
   Qed.
+
+  (* ... and when the source assigns crowd before distances the pair is carried as in the model *)
+  Lemma assign_cons_cd (x : indV) rest :
+    assign_crowding o (x :: rest) =
+    snd (fold_left (crowd_step o (length (vals x))) (seq 0 (length (vals x)))
+                   (map (fun it : nat * indV => (vals (snd it), fst it)) (enumerate (x :: rest)),
+                    repeat (dzero o) (length (x :: rest)))).
+  Proof. cbn [assign_crowding]. rewrite map_enumerate_swap. reflexivity. Qed.
 
   (* body of `for prev, cur, next in zip(crowd[:-2], crowd[1:-1], crowd[2:])` is the model's bump *)
   Ltac bump_body :=
@@ -98,7 +106,9 @@ Section Equiv.
   Ltac assign_main :=
     match goal with
     | Hl : for_list (seq 0 ?n) _ _ _ = Some _ |- _ =>
-        apply (for_list_inv_pure o (step_sw n)) in Hl; [destruct Hl as [-> ->] | clear; obj_body]
+        (* the loop-carried pair in either order of first assignment *)
+        first [ apply (for_list_inv_pure o (step_sw n)) in Hl | apply (for_list_inv_pure o (crowd_step o n)) in Hl ];
+        [destruct Hl as [-> ->] | clear; obj_body]
     end;
     (* the loop that writes the attributes *)
     match goal with
@@ -111,7 +121,8 @@ Section Equiv.
     match goal with
     | H0 : nth_error ?inds 0 = Some _ |- _ => destruct inds as [|x rest]; [discriminate H0|]; injection H0 as <-
     end;
-    rewrite <- assign_cons; apply write_enum; rewrite assign_crowding_length; apply le_n.
+    first [ rewrite <- assign_cons | rewrite <- assign_cons_cd ];
+    apply write_enum; rewrite assign_crowding_length; apply le_n.
 
   (* len(individuals) == 0: return *)
   Ltac assign_empty :=
